@@ -440,7 +440,28 @@ fn skip_assign(core: &Core) -> bool {
 }
 
 fn skip_return(core: &Core) -> bool {
-    matches!(core, Core::Return { .. } | Core::Raise { .. })
+    matches!(core, Core::Return { .. } | Core::Raise { .. }) || is_statement(core)
+}
+
+/// Statements have no value: `return while ..` or `x = for ..` is not Python.
+fn is_statement(core: &Core) -> bool {
+    matches!(
+        core,
+        Core::If { .. }
+            | Core::While { .. }
+            | Core::For { .. }
+            | Core::With { .. }
+            | Core::WithAs { .. }
+            | Core::VarDef { .. }
+            | Core::Assign { .. }
+            | Core::FunDef { .. }
+            | Core::FunDefOp { .. }
+            | Core::ClassDef { .. }
+            | Core::Import { .. }
+            | Core::Break
+            | Core::Continue
+            | Core::Pass
+    )
 }
 
 #[cfg(test)]
